@@ -122,7 +122,7 @@ Example C08_system_example :
   let st0 := mkLs (mkPs (fold_left serve rs sdb_init) [mkPc u 1 1 [] []]) [] in
   let sync i := JBase (LBase (PSync i false)) in
   let evs := [(None, JBase (LBase (PLocal 0 o2))); (Some FailUpdate, sync 0%nat);
-              (Some FailPull, JJoin w [100]%N); (None, JJoin w [100]%N);
+              (Some FailPull, JJoin w [100]%N None); (None, JJoin w [100]%N None);
               (None, sync 0%nat); (None, JBase (LBase (PLocal 1 q1))); (Some FailInsert, sync 1%nat);
               (None, sync 1%nat); (None, sync 0%nat)] in
   let st := xrun col 1 c k 0 st0 evs in
